@@ -63,7 +63,7 @@ UnparseArgs(args, red) ==
 Fail == [ok |-> FALSE, t |-> Num("0"), i |-> 0]
 Ok(t, i) == [ok |-> TRUE, t |-> t, i |-> i]
 Tok(ts, i) == IF i <= Len(ts) THEN ts[i] ELSE "<eof>"
-IsNumeral(s) == s \in {"0", "1", "2", "3", "7", "10", "0.5", "2.5", "0.25", "100", "30", "45", "90", "65536", "32768", "0.0004", "3000"}
+IsNumeral(s) == s \in {"0", "1", "2", "3", "7", "10", "0.5", "2.5", "0.25", "100", "30", "45", "90", "65536", "32768", "0.0004", "3000", "100000000"}
 IsVar(s) == s \in {"$a", "$b"}
 IsStr(s) == s \in {"'a,b'", "'a b  c'", "'  a '", "','", "'-'", "'a'", "'b'", "'a.b.c'", "'.'"}
 Fixed1 == {"abs", "ceil", "floor", "fract", "sign", "sqrt", "log", "exp", "sin", "cos", "tan", "asin", "acos", "atan", "not"}
@@ -182,7 +182,11 @@ EdgeTrees ==
      Bin("-", Bin("*", Num("65536"), Num("32768")), Num("1")), Bin("+", Bin("*", Num("65536"), Num("32768")), Num("0.5")),
      Num("0.0004"), Neg(Num("0.0004")), Bin("/", Num("1"), Num("3000")), Bin("-", Num("0.0004"), Num("0.0004")),
      Bin("*", Num("0.0004"), Num("3000")), Call("not", <<Num("0.0004")>>), Call("if", <<Num("0.0004"), Num("1"), Num("2")>>),
-     Bin("and", Num("0.0004"), Num("1")), Bin("or", Num("0.0004"), Num("0"))}
+     Bin("and", Num("0.0004"), Num("1")), Bin("or", Num("0.0004"), Num("0")),
+     \* operands of very different magnitude: the end points of mix() are exact whatever the other end is
+     Call("mix", <<Num("100000000"), Num("1"), Num("1")>>), Call("mix", <<Num("1"), Num("100000000"), Num("0")>>),
+     Call("mix", <<Num("100000000"), Num("3"), Num("1")>>), Call("clamp", <<Num("100000000"), Num("1"), Num("3")>>),
+     Call("max", <<Num("100000000"), Num("1")>>), Bin("-", Bin("+", Num("100000000"), Num("1")), Num("100000000"))}
 NestedCalls == {Bin("+", Call("max", <<Num("1"), Call("abs", <<Neg(Var("a"))>>)>>), Bin("*", Num("2"), Call("min", <<x, Num("3")>>))) : x \in ArgPool}
 
 GoodCases ==
